@@ -208,3 +208,21 @@ def fold(e, env):
         if fn in ("np.sqrt", "math.sqrt"):
             return math.sqrt(args[0])
     raise FoldError("cannot fold %s" % t)
+
+
+# ------------------------------------------------------------------ def-use
+def last_def_before(fn, name, lineno):
+    """Last assignment statement to `name` (Assign/AugAssign/For target) that textually precedes `lineno` in fn, or None
+    (= the parameter's value).  Adequate for the straight-line preprocessing code it is applied to."""
+    best = None
+    for n in ast.walk(fn):
+        tgts = []
+        if isinstance(n, ast.Assign):
+            for t in n.targets:
+                tgts += list(t.elts) if isinstance(t, (ast.Tuple, ast.List)) else [t]
+        elif isinstance(n, ast.AugAssign):
+            tgts = [n.target]
+        for t in tgts:
+            if isinstance(t, ast.Name) and t.id == name and n.lineno < lineno and (best is None or n.lineno > best.lineno):
+                best = n
+    return best
